@@ -59,7 +59,8 @@ def directed():
     reaches only rarely: a precompiled header next to generated headers, a
     generated header produced from another target's output"""
     B = dict(kind='', name='', srcs=[], libs=[], ins=[], nouts=1,
-             always=False, deps=[], dist=True, pch=False, xdeps=[], hdr=False,
+             always=False, deps=[], dist=True, pch=False, xdeps=[], cdeps=[],
+             hdr=False,
              mode='copy')
 
     def F(f):
@@ -103,6 +104,15 @@ def directed():
             dict(B, kind='step', name='t3', ins=[T('t2')]),
             dict(B, kind='exe', name='t4', srcs=[F('s1')], xdeps=['t2']),
             dict(B, kind='default', name='t5', deps=['t3', 't4', 't6'])])
+    # extra_compile_deps of targets with several sources: every object
+    for kind in ('exe', 'slib', 'shlib'):
+        out.append([
+            dict(B, kind='step', name='t1', ins=[F('d1')]),
+            dict(B, kind='copy', name='t2', ins=[F('s3')]),
+            dict(B, kind=kind, name='t3', srcs=[F('s1'), F('s2'), T('t1')],
+                 cdeps=['t2']),
+            dict(B, kind='exe', name='t4', srcs=[F('s3'), F('s1')],
+                 cdeps=['t1'], xdeps=['t2'])])
     # always-outdated steps with one and with two outputs, and their consumers
     for nouts in (1, 2):
         out.append([
